@@ -422,7 +422,8 @@ def _full_launch_def(e, k) -> bool:
 
 
 def _is_full_def(e, k) -> bool:
-  return (e.ev.kind in ("fill", "copy") and k in e.writes) or (e.ev.kind == "launch" and k in e.writes and _full_launch_def(e, k))
+  # an initialising allocation (wp.zeros / wp.full / wp.ones / clone) defines every cell, like a host fill
+  return (e.ev.kind in ("fill", "copy", "alloc") and e.writes.get(k) == "full") or (e.ev.kind == "launch" and k in e.writes and _full_launch_def(e, k))
 
 
 def init_then_partial_pairs(db, entry):
